@@ -1417,6 +1417,18 @@ pub fn gen(ctx: &Ctx, emit: &mut dyn FnMut(String)) {
         }
     }
     // writer-produced seeds over the configuration grid
+    // conversion of line programs under every shape of (line_base, line_range), including the
+    // ones the writer cannot represent (it must answer with an error, not an assertion failure)
+    for lb in [-128i8, -100, -10, -5, -1, 0, 1, 127] {
+        for lr in [1u8, 3, 4, 5, 14, 100, 127, 128, 129, 242, 243, 244, 255] {
+            // set_address, a few special opcodes across the range, advance_line, end_sequence
+            let mut prog = vec![0u8, 9, 2, 0, 0x10, 0, 0, 0, 0, 0, 0];
+            prog.extend_from_slice(&[13, 14, 100, 200, 243, 244, 255, 3, 0x7f, 1, 3, 0x85, 0x7f, 1, 2, 4, 0, 1, 1]);
+            let s = crate::prop::c12::assembled_line_unit_with(lb, lr, &prog);
+            let line = s.iter().filter(|(_, d)| !d.is_empty()).map(|(n, d)| format!("{n}={}", hex(d))).collect::<Vec<_>>().join(";");
+            emit(format!("c01 convert - le {line}"));
+        }
+    }
     let rounds = ctx.n(6, 300);
     for _ in 0..rounds {
         for version in [2u16, 3, 4, 5] {
